@@ -199,11 +199,17 @@ func authSetup(w *world.World) []engine.SetupStep {
 		fixed(Tx("store", "store(11)", StoreMsg(w, StoreP{Signer: world.O, Relayer: world.G, Gateway: world.G, DataId: world.Data1, CommitId: world.Data1, Size: 1000, Replica: 1, Duration: 3600, Timeout: 100}))),
 		CompleteNth(1, 0),
 		fixed(Tx("permission", "permission(11,rw=W,ro=Q)", PermissionMsg(w, world.O, world.G, world.G, world.Data1, []string{w.A(world.Q).Did}, []string{w.A(world.W).Did}))))
+	// model D3 owned by the stranger X itself (relayed through its own node): gives the adversary a legitimate
+	// model to mix into multi-model requests
+	d3 := "33333333-3333-3333-3333-333333333333"
+	st = append(st,
+		fixed(Tx("store", "store(33,X)", StoreMsg(w, StoreP{Signer: world.X, Relayer: world.X, Gateway: world.X, DataId: d3, CommitId: d3, Size: 1000, Replica: 1, Duration: 3600, Timeout: 100}))),
+		CompleteNth(2, 0))
 	// model D2 owned by the victim sid
 	p := saotypes.Proposal{Owner: sidVictim.Did, Provider: w.A(world.G).S(), GroupId: "g", Duration: 3600, Replica: 1, Timeout: 100, Alias: "alias-22", DataId: world.Data2, CommitId: world.Data2, Cid: world.Cid, Size_: 1000, Operation: 1}
 	st = append(st,
 		fixed(Tx("store", "store(22,sid)", &saotypes.MsgStore{Creator: w.A(world.G).S(), Provider: w.A(world.G).S(), Proposal: p, JwsSignature: world.SignKid(sidVictim.KeyPriv, sidVictim.Kid(sidVictim.DocId), &p)})),
-		CompleteNth(2, 0))
+		CompleteNth(3, 0))
 	return st
 }
 
@@ -259,6 +265,12 @@ func c09Adversarial(w *world.World, ctx sdk.Context, data string) []engine.Op {
 			}
 			// owner-only requests: renew and permission update (also denied to the rw grantee)
 			mk("renew", "own-proposal", tag, RenewMsg(w, sg.idx, rl.creator, rl.gateway, 3600, 100, data))
+			if sg.role == "stranger" {
+				// a multi-model renewal that mixes the signer's own model with the victim's, in both orders
+				own := "33333333-3333-3333-3333-333333333333"
+				mk("renew", "own-model-first", tag+",own-first", RenewMsg(w, sg.idx, rl.creator, rl.gateway, 3600, 100, own, data))
+				mk("renew", "own-model-last", tag+",own-last", RenewMsg(w, sg.idx, rl.creator, rl.gateway, 3600, 100, data, own))
+			}
 			rp := saotypes.RenewProposal{Owner: meta.Owner, Duration: 3600, Timeout: 100, Data: []string{data}}
 			mk("renew", "owner-field-mismatch", tag+",owner-field", &saotypes.MsgRenew{Creator: w.A(rl.creator).S(), Provider: w.A(rl.gateway).S(), Proposal: rp, JwsSignature: world.Sign(s.Prov, &rp)})
 			mk("permission", "own-proposal", tag, PermissionMsg(w, sg.idx, rl.creator, rl.gateway, data, nil, []string{s.Did}))
